@@ -188,6 +188,8 @@ where
         // With this `toposort` we are allowed to add vertices and edges as we go
         let mut traverser = self.matcher.toposort();
         while let Some(state) = traverser.next(&self.matcher) {
+            #[cfg(feature = "verif")]
+            crate::verif::log(crate::verif::VerifEvent::Topo(state.0.index()));
             // Group all identical constraints and FAIL transitions into one
             self.make_constraints_unique(state);
 
@@ -201,7 +203,11 @@ where
             // `make_det`
             if make_det {
                 let constraints = self.matcher.constraints(state).collect_vec();
+                #[cfg(feature = "verif")]
+                crate::verif::log(crate::verif::VerifEvent::DetAsk(state.0.index()));
                 if det_heuristic.make_det(&constraints) {
+                    #[cfg(feature = "verif")]
+                    crate::verif::log(crate::verif::VerifEvent::DetYes(state.0.index()));
                     self.make_det(state);
                     // Add `state` to the set of recently added nodes as it has been changed
                     self.recently_added.insert(state.0);
@@ -211,6 +217,8 @@ where
             // For all nodes that were added try to merge them with existing
             // ones.
             self.try_merge_new_nodes();
+            #[cfg(feature = "verif")]
+            crate::verif::log(crate::verif::VerifEvent::IterEnd(state.0.index()));
         }
 
         // Now traverse from end to front to save the scope of each automaton state.
@@ -364,6 +372,11 @@ where
                 // nothing to merge
                 continue;
             }
+            #[cfg(feature = "verif")]
+            crate::verif::log(crate::verif::VerifEvent::Group(
+                state.0.index(),
+                transitions.iter().map(|t| t.0.index()).collect(),
+            ));
 
             let old_children = transitions
                 .iter()
@@ -451,6 +464,11 @@ where
         while let Some(node) = traverser.next(&self.recently_added_subgraph()) {
             // Find all siblings that can be merged with `node`
             let merge_nodes = self.find_mergeable_nodes(node, &node_depths);
+            #[cfg(feature = "verif")]
+            crate::verif::log(crate::verif::VerifEvent::Merge(
+                node.index(),
+                merge_nodes.iter().map(|n| n.0.index()).collect(),
+            ));
 
             // merge all `nodes` into a single one.
             if merge_nodes.len() <= 1 {
